@@ -92,8 +92,18 @@ type Devmod struct {
 }
 
 // Write the devmod messages.
+//
+// The owner service handles every TO2.DeviceServiceInfo message on its own and
+// decodes each devmod value in one piece, so a devmod message must never be
+// split across two of them. mtu is therefore the space one message offers for
+// service info KVs, i.e. the size the reader of w passes to ReadChunk for an
+// empty message. Every message is measured against it and a new
+// TO2.DeviceServiceInfo is started whenever the next devmod message does not
+// fit into what is left of the current one.
 func (d *Devmod) Write(ctx context.Context, deviceModules map[string]DeviceModule, mtu uint16, w *UnchunkWriter) {
 	defer func() { _ = w.Close() }()
+
+	dw := &devmodWriter{w: w, mtu: int(mtu), left: int(mtu)}
 
 	var modules []string
 	for key := range deviceModules {
@@ -116,13 +126,16 @@ func (d *Devmod) Write(ctx context.Context, deviceModules map[string]DeviceModul
 			_ = w.CloseWithError(err)
 			return
 		}
+
+		// How much the custom module wrote is not known
+		dw.left = 0
 	} else {
 		if err := d.Validate(); err != nil {
 			_ = w.CloseWithError(err)
 			return
 		}
 
-		if err := d.writeDescriptorMessages(w); err != nil {
+		if err := d.writeDescriptorMessages(dw); err != nil {
 			_ = w.CloseWithError(err)
 			return
 		}
@@ -130,18 +143,71 @@ func (d *Devmod) Write(ctx context.Context, deviceModules map[string]DeviceModul
 		modules = append(modules, devmodModuleName)
 	}
 
-	if err := d.writeModuleMessages(modules, mtu, w); err != nil {
+	if err := d.writeModuleMessages(modules, dw); err != nil {
 		_ = w.CloseWithError(err)
 		return
 	}
 }
 
-func (d *Devmod) writeDescriptorMessages(w *UnchunkWriter) error {
-	// Active must always be true
-	if err := w.NextServiceInfo(devmodModuleName, "active"); err != nil {
+// devmodWriter writes whole devmod messages and keeps track of the space left
+// in the TO2.DeviceServiceInfo message being filled.
+type devmodWriter struct {
+	w    *UnchunkWriter
+	mtu  int
+	left int
+}
+
+// size is the encoded size of the service info KV for a devmod message.
+func (dw *devmodWriter) size(messageName string, val []byte) int {
+	encodedLen := func(n int) int {
+		switch {
+		case n < 24:
+			return 1 + n
+		case n < 256:
+			return 2 + n
+		default:
+			return 3 + n
+		}
+	}
+	return 1 + encodedLen(len(devmodModuleName)+1+len(messageName)) + encodedLen(len(val))
+}
+
+// newMessage makes the next KV start a new TO2.DeviceServiceInfo message.
+func (dw *devmodWriter) newMessage() error {
+	dw.left = dw.mtu
+	return dw.w.ForceNewMessage()
+}
+
+// write sends one devmod message in a single KV.
+func (dw *devmodWriter) write(messageName string, val []byte) error {
+	size := dw.size(messageName, val)
+	if size > dw.mtu {
+		return fmt.Errorf("MTU too small to send devmod:%s in one piece", messageName)
+	}
+	if size > dw.left {
+		if err := dw.newMessage(); err != nil {
+			return err
+		}
+	}
+	dw.left -= size
+	if err := dw.w.NextServiceInfo(devmodModuleName, messageName); err != nil {
 		return err
 	}
-	if err := cbor.NewEncoder(w).Encode(true); err != nil {
+	_, err := dw.w.Write(val)
+	return err
+}
+
+func (dw *devmodWriter) encode(messageName string, v any) error {
+	val, err := cbor.Marshal(v)
+	if err != nil {
+		return err
+	}
+	return dw.write(messageName, val)
+}
+
+func (d *Devmod) writeDescriptorMessages(w *devmodWriter) error {
+	// Active must always be true
+	if err := w.encode("active", true); err != nil {
 		return err
 	}
 
@@ -153,10 +219,7 @@ func (d *Devmod) writeDescriptorMessages(w *UnchunkWriter) error {
 		if dm.Field(i).Len() == 0 {
 			continue
 		}
-		if err := w.NextServiceInfo(devmodModuleName, messageName); err != nil {
-			return err
-		}
-		if err := cbor.NewEncoder(w).Encode(dm.Field(i).Interface()); err != nil {
+		if err := w.encode(messageName, dm.Field(i).Interface()); err != nil {
 			return err
 		}
 	}
@@ -179,29 +242,22 @@ func (d *Devmod) Validate() error {
 	return nil
 }
 
-func (d *Devmod) writeModuleMessages(modules []string, mtu uint16, w *UnchunkWriter) error {
+func (d *Devmod) writeModuleMessages(modules []string, w *devmodWriter) error {
 	writeChunk := func(chunk DevmodModulesChunk) error {
-		if err := w.NextServiceInfo(devmodModuleName, "modules"); err != nil {
-			return err
-		}
-		return cbor.NewEncoder(w).Encode(chunk)
+		return w.encode("modules", chunk)
 	}
 
-	if err := w.NextServiceInfo(devmodModuleName, "nummodules"); err != nil {
-		return err
-	}
-	if err := cbor.NewEncoder(w).Encode(len(modules)); err != nil {
+	if err := w.encode("nummodules", len(modules)); err != nil {
 		return err
 	}
 
 	// Start a new message so that full MTU is available
-	if err := w.ForceNewMessage(); err != nil {
+	if err := w.newMessage(); err != nil {
 		return err
 	}
 
 	// Build chunks iteratively until MTU is exceeded, back out the last
 	// module, write chunk, and continue until the last chunk is encoded.
-	const key = devmodModuleName + ":" + "modules"
 	var chunk DevmodModulesChunk
 	for len(modules) > 0 {
 		// Add module to chunk
@@ -209,13 +265,13 @@ func (d *Devmod) writeModuleMessages(modules []string, mtu uint16, w *UnchunkWri
 		chunk.Modules = append(chunk.Modules, modules[0])
 
 		// Brute force computing the encoded size by actually encoding it
-		var size sizewriter
-		if err := cbor.NewEncoder(&size).Encode([][]any{{key, chunk}}); err != nil {
+		val, err := cbor.Marshal(chunk)
+		if err != nil {
 			return fmt.Errorf("error calculating size of devmod:modules ServiceInfo: %w", err)
 		}
 
 		// Continue if MTU is not exceeded
-		if int(size) <= int(mtu) {
+		if w.size("modules", val) <= w.mtu {
 			modules = modules[1:]
 			continue
 		}
@@ -236,10 +292,6 @@ func (d *Devmod) writeModuleMessages(modules []string, mtu uint16, w *UnchunkWri
 
 	return writeChunk(chunk)
 }
-
-type sizewriter int
-
-func (w *sizewriter) Write(p []byte) (int, error) { *w += sizewriter(len(p)); return len(p), nil }
 
 // DevmodModulesChunk is the CBOR array value used in devmod:modules messages.
 // Instead of representing it as an []any, it provides a more typed interface,
